@@ -509,7 +509,8 @@ class AggExpr:
 
 
 def agg_lists(tier, boolean):
-    """all groups of 1..2 cells over the full value grid and of 3 cells over a reduced grid (quick); 1..4 (booleans 1..5) thorough"""
+    """all groups of 1..2 cells over the full value grid and of 3 cells over a reduced grid (quick); 1..3 cells over the full grid and
+    4 cells over the reduced grid (booleans: 1..5 cells) thorough"""
     base = BOOL_G if boolean else AGG_VALS
     out = []
     if tier == "quick":
@@ -517,8 +518,9 @@ def agg_lists(tier, boolean):
             out += [list(t) for t in itertools.product(base, repeat=n)]
         out += [list(t) for t in itertools.product(base if boolean else [None, 1.0, 2.5], repeat=3)]
         return out
-    for n in range(1, (5 if boolean else 4) + 1):
+    for n in range(1, (4 if boolean else 3) + 1):
         out += [list(t) for t in itertools.product(base, repeat=n)]
+    out += [list(t) for t in itertools.product(base if boolean else [None, 1.0, 2.5], repeat=(5 if boolean else 4))]
     return out
 
 
@@ -597,7 +599,7 @@ def run(chk):
         "transcendental functions are one uninterpreted symbol shared by specification and backends; which library function the symbol is bound to is checked on the grid only"]
     chk.cov["rule"] = ("exhaustive grid: every class-e catalogue expression (plus %d extra one-method expressions) x every tuple of the per-type grid "
                        "(numbers: null, +-inf, 0, +-1, +-2.5, 3 [+ NaN on Polars; thorough: 0.5, -0.25, 7, 100.75, -1000]; integers: null, 0,1,2,3,7,-1,-3; strings: null, '', 'a', \"a'b\", 'abcdef'; booleans: True, False, null) "
-                       "inside the documented domain (decided by spec_method in Coq); every class p/g/w catalogue row x every group of 1..2 cells over null,0,1,-1,2.5,3 and of 3 cells over null,1,2.5 (thorough: 1..4 cells over the full grid; booleans: True,False,null up to 3 / 5 cells) inside the domain; "
+                       "inside the documented domain (decided by spec_method in Coq); every class p/g/w catalogue row x every group of 1..2 cells over null,0,1,-1,2.5,3 and of 3 cells over null,1,2.5 (thorough: 1..3 cells over the full grid and 4 cells over null,1,2.5; booleans: True,False,null up to 3 / 5 cells) inside the domain; the corpus /verif/corpus/C05 first; "
                        "4 backends; non-trivial = at least one non-null argument; distinct by (backend, expression, tuple)" % len(EXTRA_EXPR))
     sys.path.insert(0, lib.REPO)
     rn = Runner()
@@ -615,8 +617,35 @@ def run(chk):
             aggs.append(AggExpr(etext, op, cl, {"pandas": pdy == "y", "sqlite": sqy == "y", "pgtext": pgy == "y", "polars": True}))
         except Exception as ex:
             unmodelled.append((etext, "does not build: %s" % type(ex).__name__))
-    # ---- phase 0: which grid tuples / groups are inside the documented domain
+    # ---- corpus of past failures (minimised): their rows / groups are run first, on the backends they name
+    corpus = []
+    cdir = os.path.join(lib.ROOT, "corpus", "C05")
+    if os.path.isdir(cdir):
+        for n in sorted(os.listdir(cdir)):
+            if n.endswith(".json"):
+                try:
+                    c = json.load(open(os.path.join(cdir, n)))
+                    c["name"] = n
+                    corpus.append(c)
+                except ValueError:
+                    chk.corr_break("corpus file %s is not valid JSON" % n, n)
+    chk.cov["distribution"]["corpus_files"] = len(corpus)
+
+    def cell(v):
+        return float(v) if isinstance(v, (int, float)) and not isinstance(v, bool) else v
     cands = []                                    # (expr index, polars-only flag, row, args)
+    for c in corpus:
+        if c.get("family") == "scalar":
+            ei = next((i for i, e in enumerate(exprs) if e.text == c["expr"]), None)
+            if ei is None:
+                e = Expr(c["expr"], "corpus")
+                e.support = {b: True for b in BACKENDS}
+                exprs.append(e)
+                ei = len(exprs) - 1
+            for row in c["rows"]:
+                row = [cell(v) for v in row]
+                cands.append((ei, False, row, exprs[ei].args_of(row)))
+    # ---- phase 0: which grid tuples / groups are inside the documented domain
     for ei, e in enumerate(exprs):
         base = set()
         for row in e.grid(tier, polars=False):
@@ -625,6 +654,24 @@ def run(chk):
         for row in e.grid(tier, polars=True):
             if tuple(repr(x) for x in row) not in base:
                 cands.append((ei, True, row, e.args_of(row)))
+    def representable(op, args):
+        """transcendental results that overflow a double have no reference value: such tuples are skipped (and counted)"""
+        fin = [a for a in args if isinstance(a, float) and not math.isinf(a) and not math.isnan(a)]
+        try:
+            if op in MATH1 and len(args) == 1 and len(fin) == 1:
+                v = MATH1[op](fin[0])
+                return not (math.isinf(v) or math.isnan(v))
+            if op == "**" and len(fin) == 2:
+                v = math.pow(fin[0], fin[1])
+                return not (math.isinf(v) or math.isnan(v)) and (v != 0.0 or fin[0] == 0.0)
+        except (ValueError, ZeroDivisionError):
+            return True                              # outside the mathematical domain: the specification decides
+        except OverflowError:
+            return False
+        return True
+    n0 = len(cands)
+    cands = [c for c in cands if representable(exprs[c[0]].op, c[3])]
+    chk.cov["distribution"]["skipped_overflowing_tuples"] = n0 - len(cands)
     dom_keys, dom_terms, dom_of = {}, [], []
     for ei, _, _, args in cands:
         t = "(%s, %s)" % (cstr(exprs[ei].op), clist([csv(a, nan_is_null=False) for a in args]))
@@ -634,7 +681,8 @@ def run(chk):
         dom_of.append(dom_keys[t])
     acands, akeys, aterms, adom_of = [], {}, [], []          # (agg index, cells, argument values)
     for ai, ae in enumerate(aggs):
-        for lst in agg_lists(tier, ae.boolean):
+        extra = [[cell(v) for v in g] for c in corpus if c.get("family") == "aggregate" and c["expr"] == ae.text and c["class"] == ae.cl for g in c["groups"]]
+        for lst in extra + agg_lists(tier, ae.boolean):
             vals = ae.vals_of(lst)
             t = "(%s, %s, %s)" % (CLS[ae.cl], cstr(ae.op), clist([csv(a, nan_is_null=False) for a in vals]))
             if t not in akeys:
@@ -642,41 +690,75 @@ def run(chk):
                 aterms.append(t)
             acands.append((ai, lst, vals))
             adom_of.append(akeys[t])
+    # The set of candidate tuples inside the documented domain is a pure function of the specification (Model/Scalar.v,
+    # Model/AggModels.v spec_cls, Model/ScalarCases.v) and of the candidate list: it is cached under the hash of exactly those
+    # inputs (committed file harness/props/C05_domain_cache.json; scratch copy under coq/cases).  Every judged case is still
+    # re-checked to be inside the domain by Coq in the final pass (code 4), so a stale cache cannot hide anything.
+    import hashlib
+    hh = hashlib.sha256()
+    for f in ("theories/Model/Scalar.v", "theories/Model/AggModels.v", "theories/Model/ScalarCases.v"):
+        hh.update(open(os.path.join(lib.COQ, f), "rb").read())
+    hh.update("\n".join(dom_terms).encode())
+    hh.update("\n".join(aterms).encode())
+    dkey = tier + ":" + hh.hexdigest()
+    cache_paths = [os.path.join(lib.ROOT, "harness", "props", "C05_domain_cache.json"), os.path.join(lib.COQ, "cases", "C05_domain_cache.json")]
+    cached = None
+    for cp in cache_paths:
+        try:
+            cj = json.load(open(cp))
+            if dkey in cj:
+                cached = cj[dkey]
+                break
+        except (OSError, ValueError):
+            pass
     files = [("C05_cat", text)]
-    per = max(800, (len(dom_terms) + 3) // 4)
-    for k in range(0, len(dom_terms), per):
-        files.append(("C05_dom_%d" % (k // per), PRE + "Definition cs := %s.\nEval vm_compute in inside_domain cs.\n" % clist(dom_terms[k:k + per])))
-    aper = max(800, (len(aterms) + 1) // 2)
-    for k in range(0, len(aterms), aper):
-        files.append(("C05_adom_%d" % (k // aper), PRE + "Definition cs := %s.\nEval vm_compute in inside_agg_domain cs.\n" % clist(aterms[k:k + aper])))
+    per = min(2500, max(800, (len(dom_terms) + 3) // 4))
+    aper = min(2500, max(800, (len(aterms) + 1) // 2))
+    if cached is None:
+        for k in range(0, len(dom_terms), per):
+            files.append(("C05_dom_%d" % (k // per), PRE + "Definition cs := %s.\nEval vm_compute in inside_domain cs.\n" % clist(dom_terms[k:k + per])))
+        for k in range(0, len(aterms), aper):
+            files.append(("C05_adom_%d" % (k // aper), PRE + "Definition cs := %s.\nEval vm_compute in inside_agg_domain cs.\n" % clist(aterms[k:k + aper])))
+    chk.cov["distribution"]["domain_filter"] = "cached" if cached is not None else "computed"
     chk.cov["distribution"]["t_before_phase0_s"] = round(time.time() - chk.t0, 1)
-    res = run_coq(files)
+    cat_file = files[0]
+    res = run_coq(files[1:]) if cached is None else {}
     chk.cov["distribution"]["t_after_phase0_s"] = round(time.time() - chk.t0, 1)
-    rc, out = res["C05_cat"]
-    diffs = nat_lists(out)
-    if rc != 0 or len(diffs) != 1:
-        chk.corr_break("catalogue comparison file failed to compile", out[-1500:])
-    else:
-        for i in diffs[0]:
-            chk.corr_break("the %s of /repo differs from the frozen table in Model/ScalarCatalog.v (a method / formatter key was added, removed or re-marked)" % names[i],
-                           {"table": names[i]})
     for text_, why in unmodelled:
         chk.corr_break("catalogue row %r is not modelled (%s)" % (text_, why), {"expression": text_})
     indom_t, aindom_t = set(), set()
-    for k in range(0, len(dom_terms), per):
-        rc, out = res["C05_dom_%d" % (k // per)]
-        ls = nat_lists(out)
-        if rc != 0 or len(ls) != 1:
-            chk.corr_break("domain filter file failed to compile", out[-1500:])
-            continue
-        indom_t.update(k + i for i in ls[0])
-    for k in range(0, len(aterms), aper):
-        rc, out = res["C05_adom_%d" % (k // aper)]
-        ls = nat_lists(out)
-        if rc != 0 or len(ls) != 1:
-            chk.corr_break("aggregate domain filter file failed to compile", out[-1500:])
-            continue
-        aindom_t.update(k + i for i in ls[0])
+    if cached is not None:
+        indom_t, aindom_t = set(cached["scalar"]), set(cached["aggregate"])
+    else:
+        ok = True
+        for k in range(0, len(dom_terms), per):
+            rc, out = res["C05_dom_%d" % (k // per)]
+            ls = nat_lists(out)
+            if rc != 0 or len(ls) != 1:
+                chk.corr_break("domain filter file failed to compile", out[-1500:])
+                ok = False
+                continue
+            indom_t.update(k + i for i in ls[0])
+        for k in range(0, len(aterms), aper):
+            rc, out = res["C05_adom_%d" % (k // aper)]
+            ls = nat_lists(out)
+            if rc != 0 or len(ls) != 1:
+                chk.corr_break("aggregate domain filter file failed to compile", out[-1500:])
+                ok = False
+                continue
+            aindom_t.update(k + i for i in ls[0])
+        if ok:
+            try:
+                cp = cache_paths[1]
+                os.makedirs(os.path.dirname(cp), exist_ok=True)
+                try:
+                    cj = json.load(open(cp))
+                except (OSError, ValueError):
+                    cj = {}
+                cj[dkey] = {"scalar": sorted(indom_t), "aggregate": sorted(aindom_t)}
+                json.dump(cj, open(cp, "w"))
+            except OSError:
+                pass
     indom = [ci for ci in range(len(cands)) if dom_of[ci] in indom_t]
     aindom = [ci for ci in range(len(acands)) if adom_of[ci] in aindom_t]
     chk.cov["distribution"].update({"candidate_tuples": len(cands), "in_domain_tuples": len(indom),
@@ -790,6 +872,7 @@ def run(chk):
         layout[gname] = per_
         for k in range(0, len(order), per_):
             sfiles.append(("%s_%d" % (gname, k // per_), head + "Definition cs := %s.\nEval vm_compute in %s mt1 mt2 %s cs.\n" % (clist(order[k:k + per_]), checker, vterm)))
+    sfiles.append(cat_file)
     sfiles.append(("C05_render", PRE + "Definition rs := %s.\nEval vm_compute in check_render rs.\nDefinition ars := %s.\nEval vm_compute in check_agg_render ars.\n" % (clist(rcases), clist(arcases))))
     if os.environ.get("C05_KEEP"):
         for n_, t_ in sfiles:
@@ -814,6 +897,14 @@ def run(chk):
                 if u in ud:
                     d.append(idx[pos])
         return sorted(o), sorted(m), sorted(d), errs
+    rc, out = res["C05_cat"]
+    diffs = nat_lists(out)
+    if rc != 0 or len(diffs) != 1:
+        chk.corr_break("catalogue comparison file failed to compile", out[-1500:])
+    else:
+        for i in diffs[0]:
+            chk.corr_break("the %s of /repo differs from the frozen table in Model/ScalarCatalog.v (a method / formatter key was added, removed or re-marked)" % names[i],
+                           {"table": names[i]})
     oracle_fail, model_fail, dom_fail, errors = gather("C05_s")
     aoracle_fail, amodel_fail, adom_fail, aerrors = gather("C05_a")
     errors += aerrors
